@@ -27,6 +27,7 @@ CONTAINERS = {
     "lc": ("list", "cint"),
     "ls": ("list", "str3"),
     "ll": ("list", "listint3"),
+    "lld": ("list", "listint3"),
     "lk": ("list", "checked"),
     "ln": ("list", "item"),
     "di": ("dict", "str", "int"),
@@ -45,7 +46,7 @@ CONTAINERS = {
 }
 UNAMES = ("ul", "ud", "us")
 FNAMES = ("dn", "lb")
-TARGETS = ["li", "li", "li", "lc", "ls", "ll", "ll[]", "lk", "lk", "ln", "di",
+TARGETS = ["li", "li", "li", "lc", "ls", "ll", "ll[]", "lld", "lld[]", "lld[]", "lk", "lk", "ln", "di",
            "dl", "dl[]", "si", "sc", "ul", "ud", "us", "dn", "dn", "lb"]
 
 LIST_OPS = [k for k in c05.OPS]
@@ -350,10 +351,10 @@ class Prop:
                 continue
             t = focus if (focus and r.random() < 0.7) else r.choice(TARGETS)
             j = r.randrange(8)
-            on = [t[:2], j] if t.endswith("[]") else t
+            on = [t[:-2], j] if t.endswith("[]") else t
             m, ckind, ikind, bounds = self.resolve_model(model, on, (lo, hi))
             if m is None:
-                on = t[:2]
+                on = t[:-2] if t.endswith("[]") else t
                 m, ckind, ikind, bounds = self.resolve_model(model, on, (lo, hi))
             if on == "lb" and m is None:
                 # no legal value yet: only a whole-value assignment can give it one
@@ -409,7 +410,12 @@ class Prop:
                     self.model_step(model, op, (lo, hi))
                 except Exception:      # noqa: BLE001 - generator's model copy is best effort
                     pass
-        return {"prop": ID, "seed": seed, "config": {"bounds": bidx}, "ops": ops}
+        return {"prop": ID, "seed": seed,
+                "config": {"bounds": bidx,
+                           # the holder class is built anew for this run (nothing that an
+                           # earlier run left on the class or its trait definitions is seen)
+                           "fresh_class": True},
+                "ops": ops}
 
     @staticmethod
     def gen_assign(r, on, fresh, invalid_rate, bounds):
@@ -436,7 +442,7 @@ class Prop:
     # ------------------------------------------------------------------ model
     @staticmethod
     def initial_model(lo):
-        return {"li": list(range(lo)), "lc": [], "ls": [], "ll": [], "lk": [], "ln": [],
+        return {"li": list(range(lo)), "lc": [], "ls": [], "ll": [], "lld": [[1, 2], [3]], "lk": [], "ln": [],
                 "di": {}, "dl": {}, "si": set(), "sc": set(),
                 "ul": [], "ud": {}, "us": set(), "dn": {}, "lb": None}
 
@@ -448,7 +454,7 @@ class Prop:
             outer = model[name]
             if not outer:
                 return None, None, None, None
-            if name == "ll":
+            if name in ("ll", "lld"):
                 return outer[j % len(outer)], "list", ("int",), (0, 3)
             keys = sorted(outer)
             return outer[keys[j % len(keys)]], "list", ("int",), (0, 3)
@@ -458,7 +464,7 @@ class Prop:
             bounds = (2, 4)
         elif on == "li":
             bounds = li_bounds
-        elif on == "ll":
+        elif on in ("ll", "lld"):
             bounds = (0, 4)
         return model[on], ck, CONTAINERS[on][1:], bounds
 
@@ -472,7 +478,7 @@ class Prop:
         m, ckind, ikind, bounds = self.resolve_model(model, on, li_bounds)
         if m is None and not (on == "lb" and k in ("assign", "assign_bad", "reset")):
             return None, "skip", False
-        if k == "imul" and on == "ll" and op["n"] >= 2:
+        if k == "imul" and on in ("ll", "lld") and op["n"] >= 2:
             # would alias inner lists; restart/fork legitimately un-share them
             return None, "skip", False
         if k == "assign_bad":
@@ -515,7 +521,7 @@ class Prop:
             outer = getattr(h, name)
             if not outer:
                 return None
-            if name == "ll":
+            if name in ("ll", "lld"):
                 return outer[j % len(outer)]
             keys = sorted(outer)
             return outer[keys[j % len(keys)]]
@@ -530,6 +536,17 @@ class Prop:
         OBJECTS.clear()
         for n in range(3):
             OBJECTS[n] = Item(uid=n)
+        # an earlier instance of the class reads its defaults (the nested ones too) and is
+        # gone - collected - before the object under test exists
+        if trace["config"].get("fresh_class"):
+            from ..zoo04 import _make
+            _make(lo, hi, bidx)
+        pred = HOLDERS[bidx]()
+        for pname in ("lld", "ll", "dl", "li"):
+            getattr(pred, pname)
+        del pred
+        import gc as _gc
+        _gc.collect()
         h = HOLDERS[bidx]()
         from ..zoo04 import UHolder
         self._u = UHolder()
@@ -556,6 +573,7 @@ class Prop:
                 obj.on_trait_change(rec_otc, name + "_items")
                 obj.observe(rec_obs, name + ".items")
             obj.observe(rec_obs, "ll.items.items")
+            obj.observe(rec_obs, "lld.items.items")
             obj.observe(rec_obs, "dl.items.items")
         attach(h)
         self.check_all(h, model, -1)
@@ -707,7 +725,7 @@ class Prop:
     def snapshot(model):
         out = {}
         for k, v in model.items():
-            if k == "ll":
+            if k in ("ll", "lld"):
                 out[k] = [list(x) for x in v]
             elif k == "dl":
                 out[k] = {a: list(b) for a, b in v.items()}
